@@ -44,13 +44,13 @@ ALL_OPS = ["FindIP", "GetHosts", "PrintTable", "IPAddrs", "FindByMAC", "FindMACE
 BASE_INV = ["TypeOK", "RaceLog", "LockOrder", "NoPanic", "C05_StructureUnlessWriter"]
 
 
-def cfg(scenario, spec="MCSpec", api=(), ops=ALL_OPS, inv=BASE_INV, fixed=False, handlers=False, deadlock=True, offgate=False):
+def cfg(scenario, spec="MCSpec", api=(), ops=ALL_OPS, inv=BASE_INV, fixed=False, handlers=False, deadlock=True, offgate=False, nested=False):
     return ("SPECIFICATION %s\nCONSTANTS\n  MACs = {1, 2}\n  IPs = {1, 2}\n  NoIP = 0\n  NoProc = \"none\"\n"
             "  Scenario = \"%s\"\n  Frames <- MC_Frames\n  InitHosts <- MC_InitHosts\n  ApiProcs = {%s}\n  ApiOps = {%s}\n"
-            "  FrameTime = 10\n  PurgeNow = 10\n  OfflineD = 2\n  PurgeD = 4\n  Handlers = %s\n  Fixed = %s\n  OfflineGate = %s\n"
+            "  FrameTime = 10\n  PurgeNow = 10\n  OfflineD = 2\n  PurgeD = 4\n  Handlers = %s\n  Fixed = %s\n  OfflineGate = %s\n  NestedRLock = %s\n"
             "INVARIANTS %s\nCHECK_DEADLOCK %s\n" %
             (spec, scenario, ", ".join('"%s"' % a for a in api), ", ".join('"%s"' % o for o in ops),
-             "TRUE" if handlers else "FALSE", "TRUE" if fixed else "FALSE", "TRUE" if offgate else "FALSE", " ".join(inv),
+             "TRUE" if handlers else "FALSE", "TRUE" if fixed else "FALSE", "TRUE" if offgate else "FALSE", "TRUE" if nested else "FALSE", " ".join(inv),
              "TRUE" if deadlock else "FALSE"))
 
 
@@ -126,6 +126,9 @@ def model_runs(ctx, offgate=False):
     must_fail("mc_racefree_cex", cfg("stale", inv=["RaceFree"]), "RaceFree")
     must_fail("mc_purgedeletestale_cex", cfg("stale", inv=["PurgeDeleteStaleX"]), "PurgeDeleteStaleX")
     must_fail("mc_c05online_cex", cfg("ipchange", inv=["C05_OnlineAtQuiescenceX"]), "C05_OnlineAtQuiescenceX")
+    # a re-entrant row read lock (shape of an accessor that locks for itself under the caller's RLock) deadlocks under Go's
+    # writer preference: the lock model must find it
+    must_fail("mc_nested_rlock_deadlock", cfg("ipchange", inv=["TypeOK"], nested=True), "Deadlock", workers=2)
     # Session.Close while purge / the packet loop still notify: send on the closed channel
     must_fail("mc_close_panic_cex", cfg("ipchange", handlers=True, inv=["NoPanicX"]), "NoPanicX")
     # (3) the repaired discipline is race free, deletes only stale hosts, keeps C05 at quiescence
